@@ -81,7 +81,7 @@ for t in ["bool", "u8", "u16", "u32", "u64", "usize", "i8", "i16", "i32", "i64",
     H("C18", "c18_transparent_" + t, "crate", ["TransparentKeyBuilder::hash_index", "TransparentKeyBuilder::hash_conflict", "KeyBuilder::build_key", "TransparentHasher::write_*", "TransparentKey::to_u64"],
       "every value of %s (full width), two arbitrary keys" % t, timeout=300)
 H("C18", "c18_default_str_string_4", "crate", ["DefaultKeyBuilder::hash_index (SeaHasher)", "DefaultKeyBuilder::hash_conflict (xxh64)", "KeyBuilder::build_key"],
-  "ASCII strings of 0..4 arbitrary bytes, arbitrary xxh64 seed; longer strings outside", timeout=900)
+  "ASCII strings of 0..4 arbitrary bytes, arbitrary xxh64 seed; exceeds 12 GB: kept for reference, disabled", timeout=900, disabled=True)
 
 # ------------------------------------------------------------------ store step lemmas (C02, C03, C04, C09)
 STF = ["ShardedMap::try_insert", "ShardedMap::try_update", "ShardedMap::try_remove", "ShardedMap::get", "ShardedMap::get_mut", "ShardedMap::len", "ExpirationMap::try_insert", "ExpirationMap::try_update", "ExpirationMap::try_remove", "ValueRefMut::write"]
@@ -93,13 +93,17 @@ H("C02", "c02_store_remove", "store", STF, SB + "; entries without TTL", cover_t
 H("C02", "c02_store_lookup", "store", STF, SB + "; entries without TTL; get, get_mut and an in-place write", cover_tags=["lookup"], cover_optional=["lookup of an expired entry"])
 P("C04", [LOCKS, CLOCK])
 TTLB = "; resident and new entries with or without TTL (creation instants within 4 s before an arbitrary now, TTLs <= 4 s + arbitrary nanoseconds)"
-H("C04", "c04_em_store_insert", "store", STF, SB + TTLB, timeout=1200, cover_tags=["insert"])
-H("C04", "c04_em_store_update", "store", STF, SB + TTLB, timeout=1200, cover_tags=["update"])
-H("C04", "c04_em_store_remove", "store", STF, SB + TTLB, timeout=1200, cover_tags=["remove"])
+H("C04", "c04_em_store_insert", "store", STF, SB + TTLB, timeout=3600, cover_tags=["insert"], tier="thorough", mem_gb=28)
+H("C04", "c04_em_store_update", "store", STF, SB + TTLB, timeout=3600, cover_tags=["update"], tier="thorough", mem_gb=28)
+H("C04", "c04_em_store_remove", "store", STF, SB + TTLB, timeout=3600, cover_tags=["remove"], tier="thorough", mem_gb=28)
+for op in ["insert", "update", "remove"]:
+    H("C04", "c04_em_step_" + op, "ttl", ["ExpirationMap::try_" + op], EMB, timeout=1200, cover_tags=[op], alias_of="c05_em_step_" + op)
 H("C03", "c03_store_lookup_ttl", "store", STF, SB + TTLB + "; lookup at now", timeout=1200, cover_tags=["lookup"])
 P("C09", [LOCKS, CLOCK])
-H("C09", "c09_store_veto_update", "store", STF, SB + TTLB + "; validator vetoes", timeout=1200, cover_tags=["update"], cover_optional=["update applied"])
-H("C09", "c09_store_veto_insert", "store", STF, SB + TTLB + "; validator vetoes", timeout=1200, cover_tags=["insert"], cover_optional=["insert replaces a resident"])
+H("C09", "c09_store_veto_update", "store", STF, SB + TTLB + "; validator vetoes; expiry index not built", timeout=1200, cover_tags=["update"], cover_optional=["update applied"])
+H("C09", "c09_store_veto_insert", "store", STF, SB + TTLB + "; validator vetoes; expiry index not built", timeout=1200, cover_tags=["insert"], cover_optional=["insert replaces a resident"])
+H("C09", "c09_store_veto_update_em", "store", STF, SB + TTLB + "; validator vetoes; expiry index asserted unchanged", timeout=3600, cover_tags=["update"], cover_optional=["update applied"], tier="thorough", mem_gb=28)
+H("C09", "c09_store_veto_insert_em", "store", STF, SB + TTLB + "; validator vetoes; expiry index asserted unchanged", timeout=3600, cover_tags=["insert"], cover_optional=["insert replaces a resident"], tier="thorough", mem_gb=28)
 
 # ------------------------------------------------------------------ cache-level (parked cache)
 CHAN = "crossbeam-channel operations are replaced by a bounded-FIFO contract (Sender::try_send/send, Receiver::try_recv; select!{send,default} only in its 'not ready' outcome): Kani cannot compile crossbeam (TLS destructors)"
@@ -110,8 +114,13 @@ PF = ["CacheProcessor::handle_insert_event", "CacheProcessor::handle_item", "Cac
 PB = "arbitrary quiescent state with <= 2 residents (arbitrary keys, charges <= 2^40, TTLs <= 4 s or none) satisfying I-SP, I-P, I-EM; both ignore_internal_cost settings; arbitrary addressed key; one processor event"
 ARCD = "Arc::drop_slow is replaced by a leak (no property is about destructors; CBMC cannot see reference counts through the Arc allocation)"
 CACHE_ASS = [LOCKS, CLOCK, CHAN, ADDC, MREC, PARK, ARCD]
+HEAVY = {"c06_proc_new", "c08_proc_new", "c16_proc_new", "c01_proc_new", "c06_proc_tick", "c08_proc_tick", "c05_proc_tick", "c16_proc_tick"}
 def PH(pid, name, ev, what, tier="quick", **kw):
-    H(pid, name, "cache::sync", PF, PB + ": " + what, tier=tier, timeout=1800, cover_tags=[ev], **kw)
+    if name in HEAVY:
+        # 17-20 M variables: thorough tier only, one at a time with a 40 GB limit
+        H(pid, name, "cache::sync", PF, PB + ": " + what, tier="thorough", timeout=5400, mem_gb=40, cover_tags=[ev], **kw)
+    else:
+        H(pid, name, "cache::sync", PF, PB + ": " + what, tier=tier, timeout=1800, cover_tags=[ev], **kw)
 P("C06", CACHE_ASS)
 PH("C06", "c06_proc_new", "new", "a New item (arbitrary cost, TTL); asserts I-SP and len")
 PH("C06", "c06_proc_update", "update", "an Update item; asserts I-SP and len")
@@ -177,10 +186,30 @@ H("C17", "c17_metrics_inner", "metrics", ["MetricsInner::new", "MetricsInner::ad
 H("C17", "c17_cache_counts", "cache::sync", ["CacheProcessor::handle_item", "CacheProcessor::track_admission", "LFUPolicy::add (contract)", "LFUPolicy::update", "LFUPolicy::remove", "SampledLFU::update (metrics arm)"], "metrics on (recorder); <= 1 resident; one New / Update / Delete item for an arbitrary key", timeout=1800)
 H("C17", "c15_get_records", "cache::sync", ["Cache::get", "Cache::get_mut", "Metrics::add (call sites)"], "hits + misses == lookups on the open cache (see C15)", timeout=1800)
 
+SCF = ["ShardedMap::try_cleanup", "ExpirationMap::try_cleanup", "ShardedMap::expiration", "ShardedMap::try_remove", "LFUPolicy::cost", "LFUPolicy::remove", "Time::is_expired", "Time::is_zero"]
+SCB = "one resident entry (with or without TTL, charged) that is filed properly, or not filed, plus optionally a stale listing of its key under an arbitrary bucket within 6 s of now; cleanup pass at an arbitrary instant <= 8 s later"
+IDX["C05"]["assumptions"] += [ARCD, MREC]
+H("C05", "c05_store_cleanup", "store", SCF, SCB, timeout=1800, mem_gb=20)
+IDX["C04"]["assumptions"] += [ARCD, MREC]
+H("C04", "c04_store_cleanup", "store", SCF, SCB, timeout=1800, mem_gb=20, alias_of="c05_store_cleanup")
+
+WIRE = ["CacheProcessor::handle_insert_event", "CacheProcessor::handle_item(New)", "CacheProcessor::calculate_internal_cost", "CacheProcessor::track_admission", "CacheProcessor::on_evict", "CacheProcessor::prepare_evict", "CacheCallback::on_reject/on_evict (call sites)"]
+WIREB = "every outcome of the policy (arbitrary verdict; no list or a list of 0..2 arbitrary victims) and every answer of the store (each victim found or not); arbitrary key, conflict, cost, TTL; both ignore_internal_cost settings"
+WIREA = "in c06_new_wiring LFUPolicy::add returns arbitrary outputs without touching the policy, and ShardedMap::try_insert / try_remove are replaced by recorders (the operations themselves are decided by the store step lemmas and the SampledLFU/contract lemmas): the harness decides which operations and callbacks the New arm issues"
+for pid in ("C06", "C08", "C16"):
+    IDX[pid]["assumptions"].append(WIREA)
+H("C06", "c06_new_wiring", "cache::sync", WIRE, WIREB, timeout=1800, cover_tags=["new"])
+H("C08", "c08_new_wiring", "cache::sync", WIRE, WIREB, timeout=1800, cover_tags=["new"], alias_of="c06_new_wiring")
+H("C16", "c16_new_wiring", "cache::sync", WIRE, WIREB, timeout=1800, cover_tags=["new"], alias_of="c06_new_wiring")
+
 P("PROBE", [])
-H("PROBE", "probe_fixture_only", "cache::sync", [], "probe", timeout=900, mem_gb=20)
-H("PROBE", "probe_update_min", "cache::sync", [], "probe", timeout=900, mem_gb=20)
-H("PROBE", "probe_em_update_small", "ttl", [], "probe", timeout=900, mem_gb=20, cover_tags=["update"])
+H("PROBE", "probe_new_n0_nottl", "cache::sync", [], "probe", timeout=1200, mem_gb=20)
+H("PROBE", "probe_new_n0_ttl", "cache::sync", [], "probe", timeout=1200, mem_gb=20)
+H("PROBE", "probe_new_n1_nottl", "cache::sync", [], "probe", timeout=1200, mem_gb=20)
+for i in "1234":
+    H("PROBE", "probe_part" + i, "cache::sync", [], "probe", timeout=1200, mem_gb=12)
+H("PROBE", "c01_add_real_n2", "policy::sync", [], "probe", timeout=3000, mem_gb=28)
+H("PROBE", "c01_add_real_n3", "policy::sync", [], "probe", timeout=3000, mem_gb=28)
 
 json.dump(IDX, open(os.path.join(V, "harness_index.json"), "w"), indent=1)
 print({k: len(v["harnesses"]) for k, v in IDX.items()})
